@@ -96,6 +96,14 @@ def u_tweak_rewrite(c):
         c.prove("tweaking/new-overlay-original-untouched", st == "ok" and r is not base and base.fields["handlers"] == [] and len(r.fields["handlers"]) == 1)
         st, r2 = run(it, it.getattr(Ov, "tweaking"), [{sel: v}])
         c.prove("tweaking/callable-on-the-class", st == "ok" and isinstance(r2, Obj) and r2.cls is Ov and len(r2.fields["handlers"]) == 1)
+        full = bool(c.choose(2, "full"))
+        fn = callback(it, "rewriter2", pure=False)
+        st, r3 = run(it, it.getattr(base, "rewriting"), [{sel: fn}], dict(full=full))
+        c.prove("rewriting/new-overlay-original-untouched", st == "ok" and r3 is not base and base.fields["handlers"] == [] and len(r3.fields["handlers"]) == 1)
+        if st == "ok" and len(r3.fields["handlers"]) == 1:
+            st, out = run(it, r3.fields["handlers"][0].fields["_intercept"], [caps])
+            calls = calls_of(c, "rewriter2")
+            c.prove("rewriting/full-flag-forwarded", st == "ok" and len(calls) == 1 and ((calls[0][1][0] is caps) if full else isinstance(calls[0][1][0], dict)))
 
 
 @unit("Overlay.register", ["C02", "C07"], [O + ":Overlay.register", O + ":Overlay.on", O + ":Overlay.tap"])
@@ -135,6 +143,24 @@ def u_overlay_register(c):
     dest = []
     st, d = run(it, it.getattr(base, "tap"), [sel], dict(dest=dest))
     c.prove("tap/returns-the-list-it-appends-to", st == "ok" and d is dest and len(base.fields["handlers"]) == 2)
+    if st == "ok" and len(base.fields["handlers"]) == 2:
+        h2 = base.fields["handlers"][1]
+        st, _ = run(it, h2.fields["_trigger"], [caps])
+        c.prove("tap/each-event-appended-once", st == "ok" and len(dest) == 1 and isinstance(dest[0], dict) and dest[0]["x"] is x and dest[0]["y"] is y)
+    st, d2 = run(it, it.getattr(base, "tap"), [sel], {})
+    c.prove("tap/creates-a-fresh-list-when-none-is-given", st == "ok" and d2 == [] and d2 is not dest)
+    # on(selector, **kwargs) is the decorator form of register: same rule, and the function itself is handed back
+    ov2 = it.call(Ov, [], {})
+    st, deco = run(it, it.getattr(ov2, "on"), [sel], kw)
+    c.prove("on/returns-a-decorator-without-registering", st == "ok" and ov2.fields["handlers"] == [])
+    del got[:]
+    st, back = run(it, deco, [fn])
+    c.prove("on/decorator-registers-once-and-returns-the-function", st == "ok" and back is fn and len(ov2.fields["handlers"]) == 1)
+    if st == "ok" and len(ov2.fields["handlers"]) == 1:
+        h3 = ov2.fields["handlers"][0]
+        c.prove("on/same-kind-of-rule-as-register", h3.cls.name == ("Immediate" if immediate else "Total") and h3.fields["selector"] is sel)
+        st, _ = run(it, h3.fields["_trigger"] if immediate else h3.fields["_close"], [caps])
+        c.prove("on/handler-calls-fn-once-with-the-same-payload", st == "ok" and len(got) == 1 and (got[0] is caps if mode == 2 else isinstance(got[0], dict)))
 
 
 @unit("Probe.emit2", ["C06", "C17"], [P + ":Probe._emit2", P + ":Probe._emit"])
@@ -434,3 +460,61 @@ def u_selector_structure(c):
     tags = it.getattr(node, "all_tags")
     c.prove("all_tags/focus-tag-maps-to-the-focused-element", (set(tags.keys()) == ({1} if focus_at >= 0 else set()))
             and (focus_at < 0 or tags[1] == {els[focus_at]}))
+
+
+@unit("terminate-global-probes", ["C17"], [P + ":_terminate_global_probes"], mode="bounded", bound="0-3 global probes active at interpreter exit")
+def u_terminate(c):
+    """At interpreter exit every global probe that is still active is deactivated exactly once (so that reductions publish their
+    result), including when deactivating one removes it from the registry while the loop runs."""
+    it = Interp(c)
+    gp = it.get_global(P, "global_probes")
+    n = c.choose(4, "active")
+    done = []
+    probes = []
+    for i in range(n):
+        def deact(it_, a, k, i=i):
+            done.append(i)
+            gp.discard(probes[i])
+
+        s_ = SummaryFn("deactivate", deact)
+        s_.is_method = False
+        probes.append(SymObj(f"probe{i}", Val.ref(z3.IntVal(c.new_id())), attrs={"deactivate": s_}))
+        gp.add(probes[i])
+    st, _ = run(it, it.get_global(P, "_terminate_global_probes"), [])
+    c.prove("no-raise", st == "ok")
+    c.prove("each-active-probe-deactivated-exactly-once", sorted(done) == list(range(n)))
+    c.prove("registry-empty-afterwards", len(gp) == 0)
+
+
+@unit("find-eval-env", ["C10", "C13"], [S + ":_find_eval_env"], mode="bounded", bound="frame chains of length 1-3; each frame in a skipped module, a user module, or a module that installs __ptera_resolver__")
+def u_find_eval_env(c):
+    """select(s) without env: names are looked up in the CALLER's scope -- the innermost frame that is not inside a skipped module
+    (locals, then globals, then builtins), unless a frame on the way installs its own resolver, which wins."""
+    it = Interp(c)
+    n = 1 + c.choose(3, "frames")
+    kinds = [c.choose(3, f"frame{i}") for i in range(n)]  # 0 skipped module (ptera...), 1 user module, 2 module with a resolver
+    frames = []
+    nxt = None
+    for i in reversed(range(n)):
+        glb = {"__name__": ["ptera.probe", "usermod", "toolmod"][kinds[i]] + str(i)}
+        if kinds[i] == 2:
+            glb["__ptera_resolver__"] = SymObj(f"resolver{i}", Val.ref(z3.IntVal(c.new_id())))
+        fr = SymObj(f"frame{i}", Val.ref(z3.IntVal(c.new_id())), attrs={"f_globals": glb, "f_locals": {f"local{i}": i}, "f_back": nxt}, closed=True)
+        frames.insert(0, fr)
+        nxt = fr
+    # frames[0] is the innermost frame (where the search starts); f_back leads outwards
+    chain = frames
+    kchain = kinds
+    st, r = run(it, it.get_global(S, "_find_eval_env"), ["sel", chain[0], ["ptera", "contextlib"]])
+    first = next((j for j, k in enumerate(kchain) if k != 0), None)
+    if first is None:
+        c.prove("only-skipped-frames/unreachable-outside-ptera", st == "raise" and isinstance(r, AssertionError))
+        return
+    c.prove("no-raise", st == "ok")
+    fr = chain[first]
+    if kchain[first] == 2:
+        c.prove("installed-resolver-wins", r is fr.attrs["f_globals"]["__ptera_resolver__"])
+    else:
+        ok = isinstance(r, Obj) and r.cls.name == "DictPile"
+        c.prove("caller-scope/locals-then-globals-then-builtins", ok and list(r.fields["dicts"])[0] is fr.attrs["f_locals"] and list(r.fields["dicts"])[1] is fr.attrs["f_globals"]
+                and len(r.fields["dicts"]) == 3, note=repr(r))
